@@ -353,6 +353,76 @@ def translator_keys():
     return "[%s, %s]" % (tk.replace("'", '"'), ak.replace("'", '"'))
 
 
+# --------------------------------------------------------------------------- runtime glue (C02 C03 C10 C11): pinned text
+PINS_FILE = os.path.join(os.path.dirname(os.path.abspath(__file__)), "pins.json")
+PIN_MODULES = ["service", "meta_runner", "base_runner", "asyncio_runner", "trio_runner", "thread_runner"]
+
+
+def _is_log(st):
+    return isinstance(st, ast.Expr) and isinstance(st.value, ast.Call) and ast.unparse(st.value.func).startswith(("self._logger.", "logging.", "logger."))
+
+
+class _Strip(ast.NodeTransformer):
+    """drop docstrings, pure logging statements and annotations: they say nothing about behaviour"""
+
+    def visit_FunctionDef(self, node):
+        self.generic_visit(node)
+        body = [st for st in node.body if not (isinstance(st, ast.Expr) and isinstance(st.value, ast.Constant)) and not _is_log(st)]
+        node.body = body or [ast.Pass()]
+        node.returns = None
+        for a in node.args.args + node.args.kwonlyargs + node.args.posonlyargs + [x for x in (node.args.vararg, node.args.kwarg) if x]:
+            a.annotation = None
+        return node
+    visit_AsyncFunctionDef = visit_FunctionDef
+
+    def _block(self, node):
+        self.generic_visit(node)
+        for f in ("body", "orelse", "finalbody"):
+            if hasattr(node, f) and isinstance(getattr(node, f), list):
+                kept = [st for st in getattr(node, f) if not _is_log(st)]
+                if f == "body" and not kept:
+                    kept = [ast.Pass()]
+                setattr(node, f, kept)
+        return node
+    visit_If = visit_For = visit_While = visit_With = visit_AsyncWith = visit_Try = visit_ExceptHandler = _block
+
+    def visit_AnnAssign(self, node):
+        if node.value is None:
+            return None
+        return ast.copy_location(ast.Assign(targets=[node.target], value=node.value), node)
+
+
+def runtime_texts():
+    """qualified name -> normalised text of every function of the runner modules"""
+    import importlib
+    out = {}
+    for mod in PIN_MODULES:
+        m = importlib.import_module("cobald.daemon.runners." + mod)
+        tree = _Strip().visit(ast.parse(inspect.getsource(m)))
+        ast.fix_missing_locations(tree)
+
+        def walk(node, prefix):
+            for ch in ast.iter_child_nodes(node):
+                if isinstance(ch, ast.ClassDef):
+                    walk(ch, prefix + ch.name + ".")
+                elif isinstance(ch, (ast.FunctionDef, ast.AsyncFunctionDef)):
+                    if ch.name not in ("__repr__", "__str__"):
+                        out[mod + ":" + prefix + ch.name] = _nz(ast.unparse(ch))
+                    walk(ch, prefix + ch.name + ".")
+        walk(tree, "")
+    return out
+
+
+def runtime_pins():
+    """which functions still read as they did when the runtime model (LTS events and their guards, the blocking model
+    of execute) was last transcribed from them (harness/vh/pins.json, written by tools/mkpins.py)"""
+    import json as _json
+    want = _json.load(open(PINS_FILE))
+    have = runtime_texts()
+    names = sorted(set(want) | set(have))
+    return "[" + ", ".join('("%s", %s)' % (n, "true" if want.get(n) == have.get(n) else "false") for n in names) + "]"
+
+
 def strs_lean(l):
     return "[" + ", ".join('"%s"' % x.replace("\\", "\\\\").replace('"', '\\"') for x in l) + "]"
 
@@ -433,6 +503,9 @@ def render():
     emit("daemonStart", "", "List String", daemon_start)
     emit("pipelineWalkShape", "", "Bool", pipeline_walk)
     emit("translatorKeys", "", "List String", translator_keys)
+    emit("runtimePins", "", "List (String × Bool)", runtime_pins)
+    out.append("/-- the function still reads as it did when the runtime model was transcribed from it -/\n"
+               "def pinned (n : String) : Bool := (runtimePins.lookup n) == some true\n")
     out += ["end Cobald.Gen", ""]
     return "\n".join(out)
 
